@@ -251,6 +251,14 @@ def find_tensors(x, out, depth=0, limit=48):
                 find_tensors(v, out, depth + 1, limit)
 
 
+def _flat(x, out):
+    try:
+        for v in x:
+            _flat(v, out)
+    except TypeError:
+        out.append(int(x) if hasattr(x, "__int__") else x)
+
+
 def _is_T(x):
     return type(x).__name__ == "Tensor" and getattr(type(x), "__module__", "").startswith("yastn")
 
@@ -337,9 +345,32 @@ class WellformedMonitor:
         self.dense_limit = dense_limit
         self.max_depth = max_depth
         self.seen = {}
+        self.unjudged_illformed_inputs = 0
 
     def before(self, ev):
         return None
+
+    def _inputs_illformed(self, ev):
+        ins = []
+        find_tensors(list(ev.args), ins)
+        find_tensors(dict(ev.kwargs), ins)
+        for x in ins[:16]:
+            if check_tensor(x, dense_limit=0, run_is_consistent=False):
+                return True
+        # constructors with the legacy t=/D= (or ts=) interface do not validate charges
+        cfg = ev.kwargs.get("config") or next((a for a in ev.args if hasattr(a, "sym") and hasattr(a, "backend")), None)
+        if cfg is None and ins:
+            cfg = ins[0].config
+        sym = G.sym_name(cfg.sym) if cfg is not None and hasattr(cfg, "sym") else None
+        if sym in G.MODULI and len(G.MODULI[sym]):
+            k = len(G.MODULI[sym])
+            for name in ("t", "ts"):
+                if name in ev.kwargs:
+                    flat = []
+                    _flat(ev.kwargs[name], flat)
+                    if len(flat) % k == 0 and any(not G.is_canon(sym, tuple(flat[i:i + k])) for i in range(0, len(flat), k)):
+                        return True
+        return False
 
     def after(self, ev, token, result, exc):
         if exc is not None or (self.max_depth is not None and ev.depth > self.max_depth):
@@ -361,7 +392,13 @@ class WellformedMonitor:
             self.by_op[short] = self.by_op.get(short, 0) + 1
             if any(t.struct.n):
                 self.nonzero_charge += 1
-            for key, msg in check_tensor(t, dense_limit=self.dense_limit):
+            problems = check_tensor(t, dense_limit=self.dense_limit)
+            if problems and self._inputs_illformed(ev):
+                # the property speaks about well-formed inputs: an ill-formed operand (e.g. a test that builds a Z2 tensor
+                # from charges 2 and 3 through the unvalidated t=/D= interface) makes the result unjudgeable
+                self.unjudged_illformed_inputs += 1
+                continue
+            for key, msg in problems:
                 self.report(f"illformed:{key}:{short}", f"{ev.name} returned an ill-formed tensor: {msg}",
                             {"call": ev.name, "depth": ev.depth, "struct": repr(t.struct)[:1500], "hfs": repr(t.hfs)[:800],
                              "mfs": repr(t.mfs), "trans": repr(t.trans)})
